@@ -170,7 +170,8 @@ def case_strategy():
         for f, longf in (("-j", "--json"), ("-a", "--all"), ("-n", "--no-colors")):
             if draw(st.booleans()):
                 argv.append(f if draw(st.integers(0, 3)) else longf)
-        mode = draw(st.sampled_from(("valid", "valid", "valid", "other-version", "mutant", "text", "interactive", "interactive", "interactive-eof")))
+        mode = draw(st.sampled_from(("valid", "valid", "valid", "other-version", "mutant", "text", "argparse-special", "interactive", "interactive",
+                                     "interactive-eof")))
         stdin = None
         if mode.startswith("interactive"):
             allm = ("-a" in argv) or ("--all" in argv)
@@ -184,6 +185,14 @@ def case_strategy():
                 vec = draw(gen.valid(draw(st.sampled_from([x for x in spec.VKEYS if x != ver]))))
             elif mode == "mutant":
                 vec = draw(gen.mutated(ver))[0]
+            elif mode == "argparse-special":
+                # values that option parsers like to interpret themselves: @file, leading dashes, '=', option look-alikes
+                pre = draw(st.sampled_from(("@", "@/dev/null", "@-", "@@", "=", "+", "-", "--", "-v", "--vector", "--vector=", "-j", "--json", "-h",
+                                            "--help", "-2", "--", "-x", "--all=1")))
+                vec = pre + draw(st.sampled_from(("", draw(gen.valid(ver)))))
+                if vec == "--":
+                    vec = "--x"      # the bare '--' is consumed by argparse itself (nothing reaches the program): a precondition
+                                     # of any argparse command line, like the '--vector=VALUE' form for values starting with '-'
             else:
                 vec = draw(st.text(alphabet=st.characters(blacklist_categories=("Cs",), blacklist_characters="\x00"), max_size=30))
             if vec.startswith("-") or draw(st.booleans()):
@@ -213,7 +222,7 @@ def hyp_part(n_examples, shard, n_sub):
         classes = ["mode:" + mode, "flags=%d" % min(nflags, 2)]
         if "-j" in inp["argv"] or "--json" in inp["argv"]:
             classes.append("json")
-        nt = ("json" in classes and mode == "valid") or mode in ("mutant", "other-version", "text", "interactive-eof")
+        nt = ("json" in classes and mode == "valid") or mode in ("mutant", "other-version", "text", "argparse-special", "interactive-eof")
         part.count(inp, nontrivial=nt, classes=classes)
         ok = part.check("cli", check_cli, inp, hyp=True)
         if ok and sub_budget[0] > 0 and "\n" not in "".join(inp["argv"]):
@@ -242,5 +251,5 @@ def run(tier, t0):
     return runner.finish(part, tier, t0, rule,
                          ["several version flags: the report of any selected version is accepted (precedence undefined by the statement)",
                           "an empty VECTOR is read as 'no vector'; layout/padding, banners and prompts are not asserted; ratings are required for v3/v4 (the CLI prints none for v2); a None v2 score line may be printed or omitted"],
-                         required=("mode:valid", "mode:other-version", "mode:mutant", "mode:text", "mode:interactive", "mode:interactive-eof",
+                         required=("mode:valid", "mode:other-version", "mode:mutant", "mode:text", "mode:argparse-special", "mode:interactive", "mode:interactive-eof",
                                    "flags=0", "flags=1", "flags=2", "json", "subprocess"))
